@@ -1,9 +1,9 @@
 ----------------------------- MODULE RefCell ------------------------------
-(* Reference cells: vertices, facet topology, reference-facet -> cell maps, *)
+(* Reference cells: vertices, facet / ridge topology, reference-entity maps, *)
 (* outward reference normals.  An independent transcription of the DOLFINx  *)
 (* / basix conventions (cross-checked against basix by the harness at       *)
 (* set-up; drift is a machinery failure, not a verdict).                    *)
-EXTENDS Rational
+EXTENDS Rational, FiniteSets
 
 Q(a) == <<a, 1>>
 V1(a) == <<Q(a)>>
@@ -80,4 +80,41 @@ RefNormal(cell, f) ==
                     RSub(RMul(ax[1][1], ax[2][2]), RMul(ax[1][2], ax[2][1]))>>
       inward == VSub(vs[OffFacetVertex(cell, f)], vs[Facets(cell)[f][1]])
   IN IF RSign(Dot(raw, inward)) > 0 THEN [k \in 1..td |-> RNeg(raw[k])] ELSE raw
+
+---------------------------------------------------------------------------
+(* Ridges (codimension 2): the edges of a 3D cell, the vertices of a 2D cell, in basix's sub-entity numbering. *)
+(* A ridge is the sequence of its (1-based) vertex numbers; the reference ridge is the unit interval (3D) or    *)
+(* the point (2D) and is mapped by  X(s) = V_a + s (V_b - V_a)  resp.  X = V_a.                                 *)
+RidgeCell(cell) == IF Tdim(cell) = 3 THEN "interval" ELSE "vertex"
+
+Ridges(cell) ==
+  IF Tdim(cell) = 3 THEN Edges(cell)
+  ELSE [v \in 1..Len(RefVerts(cell)) |-> <<v>>]
+
+\* dX/ds of the reference-ridge map (3D cells): the single column of the reference ridge Jacobian
+RidgeAxis(cell, r) ==
+  LET vs == RefVerts(cell)  rv == Ridges(cell)[r]
+  IN VSub(vs[rv[2]], vs[rv[1]])
+
+\* image in the cell of the reference-ridge point xi (<<s>> on an edge, <<>> on a vertex)
+RidgePoint(cell, r, xi) ==
+  LET vs == RefVerts(cell)  rv == Ridges(cell)[r]
+  IN IF Len(rv) = 1 THEN vs[rv[1]]
+     ELSE VAdd(vs[rv[1]], VScale(xi[1], VSub(vs[rv[2]], vs[rv[1]])))
+
+\* internal consistency of the transcription (checked by TLC whenever the module is loaded): every ridge of a 3D
+\* cell is the intersection of exactly two facets, every vertex of a 2D cell lies on exactly two facets, ridges are
+\* pairwise different and listed with ascending vertex numbers (basix's convention for sub-entity vertices)
+RidgeCells == {"triangle", "quadrilateral", "tetrahedron", "hexahedron", "prism"}
+RSet(s) == {s[i] : i \in 1..Len(s)}
+ASSUME \A cell \in RidgeCells :
+         LET rs == Ridges(cell)  fs == Facets(cell)
+         IN /\ \A r \in 1..Len(rs) :
+                 /\ Len(rs[r]) = Tdim(cell) - 1
+                 /\ \A i \in 1..(Len(rs[r]) - 1) : rs[r][i] < rs[r][i + 1]
+                 /\ Cardinality({f \in 1..Len(fs) : RSet(rs[r]) \subseteq RSet(fs[f])}) = 2
+            /\ \A r1, r2 \in 1..Len(rs) : r1 # r2 => rs[r1] # rs[r2]
+\* Euler: V - E + F = 2 for the 3D cells
+ASSUME \A cell \in {"tetrahedron", "hexahedron", "prism"} :
+         Len(RefVerts(cell)) - Len(Edges(cell)) + Len(Facets(cell)) = 2
 =============================================================================
